@@ -365,7 +365,7 @@ def worker(ctx, job):
 
 
 def run(ctx):
-    n = ctx.pick(60, 1500)
+    n = ctx.pick(60, 1200)
     jobs = [{"n": n, "budget": ctx.pick(25, 330)} for _ in range(16)]
     ctx.shard(jobs, timeout=ctx.pick(60, 400))
     total = 16 * n
